@@ -65,7 +65,7 @@ Shape concat(const std::vector<const Shape *> &xs, std::uint32_t dim) {
   }
 
   Shape s0 = *xs[0];
-  std::uint32_t sum = s0[dim];
+  std::uint64_t sum = s0[dim];
 
   for (std::uint32_t i = 1; i < xs.size(); ++i) {
     const Shape &s = *xs[i];
@@ -80,6 +80,9 @@ Shape concat(const std::vector<const Shape *> &xs, std::uint32_t dim) {
     sum += s[dim];
   }
 
+  if (sum > 0xffffffffull) {
+    PRIMITIV_THROW_ERROR("Concatenated dimension is too large: " << sum);
+  }
   s0.update_dim(dim, sum);
   return s0;
 }
@@ -164,10 +167,10 @@ Shape conv2d(
     std::uint32_t padding0, std::uint32_t padding1,
     std::uint32_t stride0, std::uint32_t stride1,
     std::uint32_t dilation0, std::uint32_t dilation1) {
-  const std::uint32_t x0 = x[0] + 2 * padding0;
-  const std::uint32_t x1 = x[1] + 2 * padding1;
-  const std::uint32_t w0 = (w[0] - 1) * dilation0 + 1;
-  const std::uint32_t w1 = (w[1] - 1) * dilation1 + 1;
+  const std::uint64_t x0 = x[0] + 2 * static_cast<std::uint64_t>(padding0);
+  const std::uint64_t x1 = x[1] + 2 * static_cast<std::uint64_t>(padding1);
+  const std::uint64_t w0 = static_cast<std::uint64_t>(w[0] - 1) * dilation0 + 1;
+  const std::uint64_t w1 = static_cast<std::uint64_t>(w[1] - 1) * dilation1 + 1;
 
   if (x.depth() > 3 || w.depth() > 4 ||
       x0 < w0 || x1 < w1 || x[2] != w[2] ||
@@ -181,8 +184,14 @@ Shape conv2d(
         << stride0 << ", " << stride1 << ", "
         << dilation0 << ", " << dilation1);
   }
+  const std::uint64_t y0 = (x0 - w0) / stride0 + 1;
+  const std::uint64_t y1 = (x1 - w1) / stride1 + 1;
+  if (y0 > 0xffffffffull || y1 > 0xffffffffull) {
+    PRIMITIV_THROW_ERROR(
+        "Result of the convolution is too large: " << y0 << " x " << y1);
+  }
   return Shape(
-      {(x0 - w0) / stride0 + 1, (x1 - w1) / stride1 + 1, w[3]},
+      {static_cast<std::uint32_t>(y0), static_cast<std::uint32_t>(y1), w[3]},
       std::max(x.batch(), w.batch()));
 }
 
@@ -191,8 +200,8 @@ Shape pool2d(
     std::uint32_t window0, std::uint32_t window1,
     std::uint32_t padding0, std::uint32_t padding1,
     std::uint32_t stride0, std::uint32_t stride1) {
-  const std::uint32_t x0 = x[0] + 2 * padding0;
-  const std::uint32_t x1 = x[1] + 2 * padding1;
+  const std::uint64_t x0 = x[0] + 2 * static_cast<std::uint64_t>(padding0);
+  const std::uint64_t x1 = x[1] + 2 * static_cast<std::uint64_t>(padding1);
 
   if (x.depth() > 3 ||
       x0 < window0 || x1 < window1 ||
@@ -206,8 +215,14 @@ Shape pool2d(
         << stride0 << ", " << stride1);
   }
 
+  const std::uint64_t y0 = (x0 - window0) / stride0 + 1;
+  const std::uint64_t y1 = (x1 - window1) / stride1 + 1;
+  if (y0 > 0xffffffffull || y1 > 0xffffffffull) {
+    PRIMITIV_THROW_ERROR(
+        "Result of the pooling is too large: " << y0 << " x " << y1);
+  }
   return Shape(
-      {(x0 - window0) / stride0 + 1, (x1 - window1) / stride1 + 1, x[2]},
+      {static_cast<std::uint32_t>(y0), static_cast<std::uint32_t>(y1), x[2]},
       x.batch());
 }
 
@@ -253,7 +268,7 @@ Shape batch_concat(const std::vector<const Shape *> &xs) {
   }
 
   Shape s0 = *xs[0];
-  std::uint32_t sum = s0.batch();
+  std::uint64_t sum = s0.batch();
 
   for (std::uint32_t i = 1; i < xs.size(); ++i) {
     const Shape &s = *xs[i];
@@ -267,6 +282,9 @@ Shape batch_concat(const std::vector<const Shape *> &xs) {
     sum += s.batch();
   }
 
+  if (sum > 0xffffffffull) {
+    PRIMITIV_THROW_ERROR("Concatenated minibatch is too large: " << sum);
+  }
   s0.update_batch(sum);
   return s0;
 }
